@@ -258,6 +258,8 @@ Definition sub_op (o : bop) : bool :=
   | BNewBytes _ v _ => zlen v <? 536870911
   | BSetUint _ off n _ => (0 <=? off) && width_b n
   | BSetBit _ n _ => 0 <=? n
+  | BListSetUint _ _ n _ => width_b n
+  | BBitSet _ _ _ => true
   | BSetPtr _ i _ => 0 <=? i
   | BSetRoot _ => true
   | BRead _ o => ro_op o
@@ -531,6 +533,90 @@ Proof.
     + change (zlen [set_bit_in b (n mod 8) v]) with 1. unfold obj_reg, obj_bytes. rewrite Ek. cbn [r_size]. rewrite TS, PW. lia.
     + intros q Hq. change (zlen [set_bit_in b (n mod 8) v]) with 1.
       pose proof (struct_slots_after_data (bm_data (w_dst (st_w st))) p q Ek (conj Hd (conj Hm Hp')) Hq). lia.
+  - (* UIntNList.Set *)
+    destruct (hget st h) as [l p] eqn:EH. cbn [sub_op] in Hop.
+    unfold dset. destruct (set_in (st_w st) l _) as [w1| |] eqn:ES; intros E Hns; injection E as <- _;
+      try (exists pads; exact S).
+    exists pads. assert (Hn : n = 1 \/ n = 2 \/ n = 4 \/ n = 8) by (apply width_b_ok; exact Hop).
+    assert (PE : exists addr, primitiveElem true (as_list p) i (mkOS n 0) = Ok addr).
+    { unfold set_in in ES. destruct l; [unfold lift0 in ES|]; unfold list_set_uint in ES;
+        destruct (primitiveElem true (as_list p) i (mkOS n 0)) as [addr| |]; try discriminate; eauto. }
+    destruct PE as [addr PE].
+    assert (Hval : p_valid (as_list p) = true).
+    { unfold primitiveElem in PE. destruct (p_valid (as_list p)); auto. cbn in PE. discriminate. }
+    assert (Eas : as_list p = p /\ p_kind p = KList).
+    { unfold as_list, is_list in *. destruct (p_valid p && _) eqn:EE; [|discriminate Hval].
+      split; [reflexivity|]. destruct (p_kind p); auto; rewrite Bool.andb_false_r in EE; discriminate. }
+    destruct Eas as [Eas Ek]. rewrite Eas in *.
+    assert (HP : p = snd (hget st h)) by (rewrite EH; reflexivity).
+    destruct (hget_obj st pads h S ltac:(rewrite <- HP; exact Hval)) as (Hin & Hmem & Hl). rewrite <- HP in Hin. rewrite EH in Hl. cbn in Hl. subst l.
+    destruct (hi_good _ _ _ H p Hin) as [_ G]. pose proof G as (Sh & Gs & Gi & Go).
+    pose proof Sh as Sh'. unfold shape_ok in Sh'. rewrite Ek in Sh'. destruct Sh' as (Hc & Hlen & Hk).
+    (* the element address and the list's shape *)
+    unfold primitiveElem in PE. rewrite Hval, Hc in PE. cbn [negb orb andb] in PE.
+    destruct ((i <? 0) || (i >=? p_len p)) eqn:EI; [discriminate|].
+    destruct (p_bit p) eqn:EB; [discriminate|]. cbn [orb] in PE.
+    destruct (negb (os_eqb (p_size p) (mkOS n 0))) eqn:EO; [discriminate|]. cbn [orb] in PE.
+    assert (Esz : p_size p = mkOS n 0).
+    { unfold os_eqb in EO. cbn [DataSize PointerCount] in EO. destruct (p_size p) as [d c]. cbn in EO. f_equal; lia. }
+    assert (TS : totalSize (p_size p) = n) by (rewrite Esz; unfold totalSize, pointerSize, u32; cbn; lia).
+    rewrite TS in PE. destruct (element (p_off p) i n) as [a0|] eqn:EE; [|discriminate].
+    apply Ok_inj in PE. subst a0.
+    apply element_spec in EE. destruct EE as [Ead _].
+    assert (OB : obj_bytes p = n * p_len p).
+    { rewrite list_alloc_eq; auto. rewrite EB, Esz. cbn [DataSize PointerCount]. lia. }
+    destruct (in_seg_elim _ _ _ _ Gi) as (G1 & G2 & G3 & G4 & G5). unfold obj_reg in G3, G4. cbn [r_size] in G3, G4. rewrite OB in G3, G4.
+    unfold set_in, lift0, list_set_uint in ES. unfold primitiveElem in ES. rewrite Hval, Hc in ES. cbn [negb orb andb] in ES.
+    rewrite EI, EB in ES. cbn [orb] in ES. rewrite EO in ES. cbn [orb] in ES. rewrite TS in ES.
+    assert (EE2 : element (p_off p) i n = Some addr) by (apply element_spec; split; [exact Ead|unfold maxSegmentSize; pose proof (hi_small _ _ _ H (p_seg p)); unfold maxSegmentSize in *; rewrite seg_len_bm in G4; unfold padToWord, u32 in G4; nia]).
+    rewrite EE2 in ES.
+    destruct (seg_write (w_dst (st_w st)) (p_seg p) addr _) as [m1| |] eqn:EW; cbn [bind] in ES; try discriminate.
+    apply Ok_inj in ES. subst w1.
+    assert (Ln : zlen (le_encode (Z.to_nat n) v) = n) by (apply zlen_le_encode; lia).
+    apply seg_write_wrote in EW; [|lia|rewrite Ln; lia].
+    split; [|exact P]. unfold objs_of. cbn [st_h st_w w_dst w_set_dst]. fold (objs_of st).
+    apply (hinv_data_write (w_dst (st_w st)) (objs_of st) pads m1 p addr (le_encode (Z.to_nat n) v)); auto; try lia.
+    + rewrite Ln. unfold obj_reg. cbn [r_size]. rewrite OB.
+      assert (K1 : i * n + n <= n * p_len p) by nia. assert (K2 : 0 <= n * p_len p <= 4294967288) by nia.
+      set (k := n * p_len p) in *. clearbody k. unfold padToWord, u32. lia.
+    + intros q Hq. exfalso. unfold slots, tgt_of, et_of in Hq. rewrite Ek, EB, Esz in Hq. cbn [PointerCount DataSize children] in Hq.
+      change (0 =? 1) with false in Hq. cbv iota zeta in Hq.
+      destruct Hn as [->|[->|[->| ->]]]; cbn in Hq; destruct Hq.
+  - (* BitList.Set *)
+    destruct (hget st h) as [l p] eqn:EH.
+    unfold dset. destruct (set_in (st_w st) l _) as [w1| |] eqn:ES; intros E Hns; injection E as <- _;
+      try (exists pads; exact S).
+    exists pads.
+    assert (Hval : p_valid (as_list p) = true /\ 0 <= i < p_len (as_list p) /\ p_bit (as_list p) = true).
+    { unfold set_in in ES. destruct l; [unfold lift0 in ES|]; unfold bitlist_set in ES;
+        destruct (negb (p_valid (as_list p)) || (i <? 0) || (i >=? p_len (as_list p))) eqn:E1; try discriminate;
+        destruct (negb (p_bit (as_list p))) eqn:E2; try discriminate;
+        (split; [destruct (p_valid (as_list p)); auto; discriminate|split; [lia|destruct (p_bit (as_list p)); auto; discriminate]]). }
+    destruct Hval as (Hval & Hi & Hbit).
+    assert (Eas : as_list p = p /\ p_kind p = KList).
+    { unfold as_list, is_list in *. destruct (p_valid p && _) eqn:EE; [|discriminate Hval].
+      split; [reflexivity|]. destruct (p_kind p); auto; rewrite Bool.andb_false_r in EE; discriminate. }
+    destruct Eas as [Eas Ek]. rewrite Eas in *.
+    assert (HP : p = snd (hget st h)) by (rewrite EH; reflexivity).
+    destruct (hget_obj st pads h S ltac:(rewrite <- HP; exact Hval)) as (Hin & Hmem & Hl). rewrite <- HP in Hin. rewrite EH in Hl. cbn in Hl. subst l.
+    destruct (hi_good _ _ _ H p Hin) as [_ G]. pose proof G as (Sh & Gs & Gi & Go).
+    pose proof Sh as Sh'. unfold shape_ok in Sh'. rewrite Ek in Sh'. destruct Sh' as (Hc & Hlen & Hk).
+    assert (OB : obj_bytes p = bitListSize (p_len p)) by (rewrite list_alloc_eq; auto; rewrite Hbit; reflexivity).
+    destruct (in_seg_elim _ _ _ _ Gi) as (G1 & G2 & G3 & G4 & G5). unfold obj_reg in G3, G4. cbn [r_size] in G3, G4. rewrite OB in G3, G4.
+    rewrite seg_len_bm in G4. pose proof (hi_small _ _ _ H (p_seg p)) as Hsm. unfold maxSegmentSize in Hsm.
+    unfold bitListSize, padToWord, u32 in G3, G4.
+    unfold set_in, lift0, bitlist_set in ES.
+    destruct (negb (p_valid p) || (i <? 0) || (i >=? p_len p)); [discriminate|]. destruct (negb (p_bit p)); [discriminate|].
+    unfold bitOffset_offset in ES.
+    assert (Ead : u32 (p_off p + i / 8) = p_off p + i / 8) by (unfold u32; lia). rewrite Ead in ES.
+    destruct (readUintN _ _ 1) as [b| |]; cbn [bind] in ES; try discriminate.
+    destruct (seg_write (w_dst (st_w st)) (p_seg p) (p_off p + i / 8) _) as [m1| |] eqn:EW; cbn [bind] in ES; try discriminate.
+    apply Ok_inj in ES. subst w1.
+    apply seg_write_wrote in EW; [|lia|cbn; lia].
+    split; [|exact P]. unfold objs_of. cbn [st_h st_w w_dst w_set_dst]. fold (objs_of st).
+    apply (hinv_data_write (w_dst (st_w st)) (objs_of st) pads m1 p (p_off p + i / 8) [set_bit_in b (i mod 8) v]); auto; try lia.
+    + change (zlen [set_bit_in b (i mod 8) v]) with 1. unfold obj_reg. cbn [r_size]. rewrite OB. unfold bitListSize, padToWord, u32. lia.
+    + intros q Hq. exfalso. unfold slots, tgt_of, et_of in Hq. rewrite Ek, Hbit in Hq. cbn in Hq. destruct Hq.
   - (* SetPtr *)
     destruct (hget st h) as [l p] eqn:EH. destruct (hget st hs) as [ls q] eqn:EQ. cbn [sub_op] in Hop.
     destruct (is_src l) eqn:EL; [discriminate|].
